@@ -15,8 +15,8 @@ fn comments_parser() -> anyhow::Result<impl CommentsParser> {
                 return None;
             }
             let comment = &source[node.byte_range()];
-            if comment.starts_with("#!") {
-                // Skip shebang.
+            if comment.starts_with("#!") && node.start_byte() == 0 {
+                // Skip the shebang: only the very first line of a script can be one.
                 None
             } else {
                 Some(comment.replacen("#", " ", 1))
